@@ -4,7 +4,11 @@
 // nested and repeated messages, boundary integers). Oracles: marshalling the same value repeatedly and
 // marshalling a second, separately allocated value built from the same choices give identical bytes;
 // Size() equals the encoded length; Unmarshal(Marshal(x)) is Equal to x (both directions); re-marshalling
-// the decoded value gives the same bytes.
+// the decoded value gives the same bytes. Decoding runs into a fresh target (through the real
+// GogoProtoMarshalizer and through the generated Unmarshal) and, through the marshalizer only, into REUSED
+// targets that still hold another value of the same type (populated, decoded, decoded twice, and the other
+// way round): GogoProtoMarshalizer.Unmarshal resets its target, so the result must not depend on what the
+// target held before. A third of the values is all-default or mostly default (zero-length encodings).
 package main
 
 import (
@@ -314,9 +318,10 @@ func main() {
 	logger.SetLogLevel("*:NONE")
 	r := vk.Start("C45")
 	types := protoTypes()
-	r.Rule(fmt.Sprintf("case = (message type, fill style, seed): the %d generated gogo-proto message types of elrond-go (blocks, meta blocks, miniblocks, transactions, logs, receipts, reward and SCR transactions, account / code / validator records, trie nodes, batches, all system-SC records, lookup and bootstrap records, consensus / request / heartbeat / p2p messages) are visited round-robin; a reflection populator fills every settable field in one of four styles (sparse, normal, dense, boundary-heavy): big ints nil / 0 / negative / 2^(8k) / random, byte slices nil / empty / short / up to 2 kB, strings with multi-byte runes, nested pointers nil or set, repeated fields 0..6 elements, integers around every varint length boundary. Non-trivial = encoded length > 0; shape = type + hash of the fill signature (which fields are nil / empty / set, element counts, varint lengths).", len(types)))
+	r.Rule(fmt.Sprintf("case = (message type, fill style, seed): the %d generated gogo-proto message types of elrond-go (blocks, meta blocks, miniblocks, transactions, logs, receipts, reward and SCR transactions, account / code / validator records, trie nodes, batches, all system-SC records, lookup and bootstrap records, consensus / request / heartbeat / p2p messages) are visited round-robin; a reflection populator fills every settable field big ints nil / 0 / negative / 2^(8k) / random, byte slices nil / empty / short / up to 2 kB, strings with multi-byte runes, nested pointers nil or set, repeated fields 0..6 elements, integers around every varint length boundary. Six styles: sparse, normal, dense, boundary-heavy, all-default (zero-length encoding where the type allows it) and mostly default (a leaf is set with probability 1/10); 3 of 9 values are (mostly) default. Every case draws a second independent value of the same type and decodes each of the two into targets that hold the other (populated / decoded / decoded twice). Non-trivial = every case; shape = type + hash of the fill signature (which fields are nil / empty / set, element counts, varint lengths) + class of the other value (zero-length / mostly-default / populated).", len(types)))
 	r.Assume("values are compared with the generated Equal method (nil and empty byte slices are equal for proto3)",
 		"floats are finite; strings are valid UTF-8; elements of repeated message fields are non-nil",
+		"reset-before-decode is demanded only through marshal.GogoProtoMarshalizer.Unmarshal (it calls Reset); the generated Unmarshal methods merge into their receiver by design and are only exercised with fresh targets",
 		"oneof-based metrics messages (data/metrics) and test-only messages are not protocol data and are left out")
 	r.MinShapes(2000)
 	r.Extra("message_types", len(types))
@@ -442,6 +447,17 @@ func main() {
 				return "populated"
 			}
 			xc, oc := valClass(b1, style), valClass(bo, otherStyle)
+			// the other value must round-trip through a fresh target as well, otherwise a difference seen with a
+			// reused target would be blamed on the reuse
+			yo := reflect.New(rt).Interface().(protoMsg)
+			r.Eval(1)
+			if err := m.Unmarshal(yo, bo); err != nil || !other.Equal(yo) || !yo.Equal(other) {
+				freshOK = false
+				r.Violation(c.Idx, key("roundtrip-not-equal"), fmt.Sprintf("%s: decoded value differs (%v): in=%+v out=%+v", tname, err, other, yo), map[string]interface{}{"type": tname, "value": fmt.Sprintf("%+v", other), "bytes": vk.Hex(bo), "decoded": fmt.Sprintf("%+v", yo), "fill_seed": otherSeed, "style": otherStyle})
+			} else if again, errA := m.Marshal(yo); errA != nil || !bytes.Equal(again, bo) {
+				freshOK = false
+				r.Violation(c.Idx, key("remarshal-differs"), fmt.Sprintf("%s: re-encoding the decoded value gives %x instead of %x (%v)", tname, again, bo, errA), map[string]interface{}{"type": tname, "value": fmt.Sprintf("%+v", other), "bytes": vk.Hex(bo), "again": vk.Hex(again)})
+			}
 			if freshOK {
 				reuse := func(how string, target protoMsg, prev protoMsg, prevBytes []byte, val protoMsg, valBytes []byte, valC, prevC string) {
 					prevStr := ""
